@@ -87,9 +87,9 @@ macro_rules! validate_spans_n {
                     i += 1;
                 }
             }
-            crate::witness!(1, ok && inp[0].0 > inp[N - 1].0 && inp[0].1 > 0 && inp[N - 1].1 > 0, "accepted, input not in offset order");
-            crate::witness!(2, !ok && any_shared && inp[0].0 < inp[N - 1].0, "refused overlapping set");
-            crate::witness!(3, ok && clean && inp[0].1 == 0 && inp[0].0 > 0, "accepted set with a zero-length span");
+            kani::cover!(ok && inp[0].0 > inp[N - 1].0 && inp[0].1 > 0 && inp[N - 1].1 > 0, "accepted, input not in offset order");
+            kani::cover!(!ok && any_shared && inp[0].0 < inp[N - 1].0, "refused overlapping set");
+            kani::cover!(ok && clean && inp[0].1 == 0 && inp[0].0 > 0, "accepted set with a zero-length span");
         }
     };
 }
